@@ -256,6 +256,23 @@ func runProperty(eng *Engine, prop, tier string, timeout int, findings []Finding
 		}
 	}
 	sort.Strings(keys)
+	sweepOnly := map[string]bool{}
+	if prop == "C10" {
+		// totality: every function of the analyzers, with its contract if it has one, zero-annotation otherwise;
+		// only the no-panic obligations (safe:*, implicit non-nil preconditions at calls) are counted here
+		have := map[string]bool{}
+		for _, k := range keys {
+			have[k] = true
+		}
+		for k, fi := range eng.funcs {
+			if have[k] || strings.Contains(fi.Pkg.PkgPath, "/testutil") || strings.Contains(fi.Pkg.PkgPath, "/cmd/") {
+				continue
+			}
+			keys = append(keys, k)
+			sweepOnly[k] = true
+		}
+		sort.Strings(keys)
+	}
 	var insts []*oblInst
 	var reports []*FuncReport
 	for _, k := range keys {
@@ -264,7 +281,7 @@ func runProperty(eng *Engine, prop, tier string, timeout int, findings []Finding
 			res.Undecided = append(res.Undecided, fmt.Sprintf("obligation=%s reason=contract-does-not-bind (function not found)", shortFuncKey(k)))
 			continue
 		}
-		if eng.contracts[k].Trusted {
+		if ct := eng.contracts[k]; ct != nil && ct.Trusted {
 			res.Trusted["assumed contract (body not verified): "+shortFuncKey(k)] = true
 			continue
 		}
@@ -277,6 +294,9 @@ func runProperty(eng *Engine, prop, tier string, timeout int, findings []Finding
 		}
 		res.Funcs = append(res.Funcs, shortFuncKey(k))
 		for i, o := range rep.Obls {
+			if prop == "C10" && !(strings.HasPrefix(o.Kind, "safe") || o.Kind == "dec" || (o.Kind == "pre" && (strings.Contains(o.Sub, "#recv") || strings.Contains(o.Sub, "#nonnil"))) || o.Cover) {
+				continue
+			}
 			insts = append(insts, &oblInst{obl: o, text: rep.Texts[i], rep: rep})
 		}
 		for _, t := range rep.Trusted {
